@@ -3,9 +3,10 @@
 usage: mk_seed_tasks2.py seed|refactor [ids...]"""
 import glob, json, os, subprocess, sys
 kind = sys.argv[1]
-ids = sys.argv[2:]
+ids = [a for a in sys.argv[2:] if not a.startswith("--")]
+ROUND = next((a.split("=")[1] for a in sys.argv[2:] if a.startswith("--round=")), "2")
 props = {json.loads(l)["id"]: json.loads(l) for l in open("/verif/properties.jsonl")}
-root = "/tmp/wt2" if kind == "seed" else "/tmp/wtr"
+root = (f"/tmp/wt{ROUND}" if kind == "seed" else ("/tmp/wtr" if ROUND == "2" else f"/tmp/wtr{ROUND}"))
 for pid in ids or props:
     p = props[pid]
     wt = f"{root}/{pid}"
@@ -52,7 +53,7 @@ Code it is anchored in (line numbers approximate):
   observe at: {', '.join(anchors.get('observe_at', []))}
 """
     if kind == "seed":
-        task = f"""# Task: seed NEW realistic, subtle defects that break one semantic property (round 2)
+        task = f"""# Task: seed NEW realistic, subtle defects that break one semantic property (a later round: many changes are already known)
 
 {common}
 ## What to produce
@@ -95,6 +96,11 @@ equivalent one (`a and f()` -> `if a: f()`, conditional expression -> if/else, f
 provably equivalent, tuple unpacking -> indexing, `not a <= b` -> `a > b`, chained comparison split, ...), algebraically regroup an
 arithmetic expression, move a computation to a local, change comments/docstrings/formatting, add type annotations, reorder `or`/`and`
 operands that are side-effect free, split or merge `with`/`try` blocks WITHOUT changing what is protected, etc.
+Prefer the LARGER kinds of harmless restructuring this time: move a block of logic into a new private method / module function / nested
+closure (or inline an existing private helper), replace a flag variable by early returns (or the reverse), turn a loop into a comprehension
+or generator (or the reverse), hoist loop-invariant computations, merge duplicated branches, introduce a small local NamedTuple/dataclass
+for values that travel together, rename a private local helper consistently, replace `try/except/else` by equivalent straight-line code
+where nothing can raise, change the order of independent validations that raise the same error class for disjoint inputs, etc.
 Make them non-trivial (each touching at least one function named in the anchors above) but strictly semantics-preserving.
 
 For each change k = 1..5 write into `{wt}/out/k/`:
